@@ -57,7 +57,7 @@ func init() {
 
 	Register(&Family{
 		Name:   "C08.handoff",
-		Props:  []string{"C08", "C13"},
+		Props:  []string{"C08", "C07", "C13"},
 		Weight: 4,
 		Gen: func(g *Gen) *Scn {
 			sc := &Scn{Family: "C08.handoff"}
@@ -142,6 +142,18 @@ func init() {
 			// FIFO, no loss, terminal after every queued value
 			want := scriptToN(sc.Sources[0].Script)
 			got := rec.Events
+			if n := len(want); n > 0 && want[n-1].K == 'E' {
+				// C07: the source's error reaches the subscriber exactly once, after the values
+				nerr := 0
+				for _, ev := range got {
+					if ev.K == 'E' {
+						nerr++
+					}
+				}
+				if nerr != 1 {
+					e.Violate("C07", "source-error-lost", fmt.Sprintf("%s(%d): the source failed after %d values but the subscriber received %d Error notifications (trace %s)", sc.Sub, capN, n-1, nerr, rec.Trace()))
+				}
+			}
 			if len(got) != len(want) {
 				e.Violate("C08", "handoff-loss", fmt.Sprintf("%s(%d): produced %s but delivered %s", sc.Sub, capN, traceN(want), rec.Trace()))
 				return
